@@ -77,6 +77,17 @@ Definition run_conveq (x y : N) : list string :=
        ++ " aid_aty=" ++ sBool (eq_areaid_type x (areatype_of_id y))
        ++ " aty_aid=" ++ sBool (eq_areatype_id (areatype_of_id x) y)) ].
 
+(* conveqc <x> <y>: the same impls on a symbolic value built directly as TagType::Custom(x), canonical or not
+   (Custom(5) is a legal value although from(5) never yields it): equality is equality of the numbers *)
+Definition run_conveqc (x y : N) : list string :=
+  [ line "eqc"
+      ("ty_id=" ++ sBool (eq_type_id (Custom x) (id_of_u32 y))
+       ++ " id_ty=" ++ sBool (eq_id_type (id_of_u32 y) (Custom x))
+       ++ " ty_u32=" ++ sBool (eq_type_u32 (Custom x) y)
+       ++ " u32_ty=" ++ sBool (eq_u32_type y (Custom x))
+       ++ " val=" ++ sN (tagtype_val (Custom x))
+       ++ " id=" ++ sN (u32_of_id (id_of_tagtype (Custom x)))) ].
+
 Definition run_elfty (raw : N) : list string := [ line "section_type" (sElfType (elf_section_type raw)) ].
 Definition run_fb (b : N) : list string := [ line "fb_type" (sRes sFbId (fb_try_from b)) ].
 Definition run_magic : list string := [ line "magic" ("mbi=" ++ sN MBI_MAGIC ++ " hdr=" ++ sN HDR_MAGIC) ].
